@@ -32,7 +32,7 @@ RULE = (
     "remove_redundant_coefficients / remove_redundant_names. non-trivial = the result has >= 2 terms, or the "
     "operation removed a term or a name, or the input was rejected."
 )
-LEVEL_TEXT += (" Constructors with an explicit allocation= (N, N+1, 2N-1, 2N, 3N slots, also followed by hsplit/vsplit/+), from exponents without names, and from numpy arrays are part of the catalogue.")
+LEVEL_TEXT += (" Constructors with an explicit allocation= (N, N+1, 2N-1, 2N, 3N slots, also followed by hsplit/vsplit/+), from exponents without names, and from numpy arrays are part of the catalogue. Attribute variants: an all-zero coefficient wider in shape or type, a requested dtype that casts a term to zero, names=(), and no coefficient list at all (for the given rows, or for no rows: the empty sum) - the zero polynomial whose terms are all all-zero terms.")
 ASSUMPTIONS = [
     "size-0 results are excluded (known finding: size-0 arrays lose their shape, see C10/C12)",
     "term order of a rebuilt polynomial is not asserted, only the term set",
@@ -106,6 +106,10 @@ def attr_case(draw):
             variant = {"dtype": "int64"}
         elif pick == 2:
             variant = {"names": "empty"}  # names=() for D >= 1 columns: not a valid triple
+        elif pick == 3:
+            # no coefficient list at all (what a size-0 array's attributes look like), for the given rows or for
+            # no rows (the empty sum): the zero polynomial, all of whose terms are all-zero terms
+            variant = {"no_coefs": True, "no_rows": draw(st.booleans())}
     return {"attrs": {"rows": rows, "coefs": coefs, "names": names, "shape": list(shape), "kind": kind},
             "fault": fault, "func": func, "variant": variant,
             "arg_rc": draw(tri), "arg_rn": draw(tri), "opt_rc": draw(st.booleans()), "opt_rn": draw(st.booleans())}
@@ -332,6 +336,16 @@ def check_attrs(case, ctx):
         attrs["kind"], dtype = "i", variant["dtype"]
     if variant.get("names") == "empty":
         names_arg = ()
+    rows_arg = attrs["rows"]
+    if variant.get("no_coefs"):
+        ncols = len(attrs["names"])
+        if variant.get("no_rows"):
+            rows_arg = numpy.zeros((0, ncols), dtype=int)
+            attrs["rows"] = [[0] * ncols]
+        carr = []
+        attrs["coefs"] = [[0] for _ in attrs["rows"]]
+        attrs["shape"], attrs["kind"] = [], "i"
+        shape, dtype = (), KIND_DTYPE["i"]
     opts = {"retain_coefficients": case["opt_rc"], "retain_names": case["opt_rn"]}
     rc = case["arg_rc"] if case["arg_rc"] is not None else case["opt_rc"]
     rn = case["arg_rn"] if case["arg_rn"] is not None else case["opt_rn"]
@@ -393,11 +407,11 @@ def check_attrs(case, ctx):
                                                          retain_coefficients=True, retain_names=True)
                 p = numpoly.clean_attributes(raw, retain_coefficients=case["arg_rc"], retain_names=case["arg_rn"])
             elif func == "from_attributes":
-                p = numpoly.ndpoly.from_attributes(attrs["rows"], carr, names_arg,
+                p = numpoly.ndpoly.from_attributes(rows_arg, carr, names_arg,
                                                    retain_coefficients=case["arg_rc"], retain_names=case["arg_rn"],
                                                    **extra_kw)
             else:
-                p = numpoly.polynomial_from_attributes(attrs["rows"], carr, names_arg,
+                p = numpoly.polynomial_from_attributes(rows_arg, carr, names_arg,
                                                        retain_coefficients=case["arg_rc"],
                                                        retain_names=case["arg_rn"], **extra_kw)
         except PolynomialConstructionError as err:
